@@ -12,7 +12,7 @@ Case shape (self-contained, JSON):
      | ["repeat", E, k] | ["power", E, k] | ["choice", [[E, [m, e]], ...], limit|null]
      | ["cond", pred, E, E] | ["until", E, n]            pred := ["lenGt", k] | ["always"] | ["never"]
   prims in the Lean model: mutUniform mutSwap selRandom selSample selTop selBottom selFirst selLast
-     recUniform recSample recKPoint recSegmented recOrder; oracle-only prims (run on the real code, property
+     recUniform recSample recKPoint recSegmented recOrder recAverage recWeightedAverage; oracle-only prims (run on the real code, property
      oracle only, no model prediction): see ORACLE_ONLY.
 
 Recorded-oracle technique: every `random.Random` owned by an operator of the expression is replaced
@@ -21,17 +21,16 @@ indices / exact rationals). The log is the oracle stream fed to the Lean model, 
 and size of every draw it makes, so the *sequence of PRNG calls* is part of the correspondence.
 """
 
-import hashlib
 import json
-import os
 import random as _pyrandom
-import tempfile
+from fractions import Fraction
 
 from harness.common.framework import Prop
 
 MODEL_PRIMS = ['mutUniform', 'mutSwap', 'selRandom', 'selSample', 'selTop', 'selBottom', 'selFirst',
-               'selLast', 'recUniform', 'recSample', 'recKPoint', 'recSegmented', 'recOrder']
-ORACLE_ONLY = ['recAverage', 'recWeightedAverage', 'recPartiallyMapped', 'recCycle',
+               'selLast', 'recUniform', 'recSample', 'recKPoint', 'recSegmented', 'recOrder', 'recAverage',
+               'recWeightedAverage']
+ORACLE_ONLY = ['recPartiallyMapped', 'recCycle',
                'selProportional', 'selTopCluster', 'selBottomCluster', 'nsga2SortPipeline',
                'lambdaDrop1', 'lambdaReverse', 'forEachFlatten']
 SELECTORS = {'Random', 'Sample', 'Proportional', 'Top', 'Bottom', 'First', 'Last'}
@@ -81,8 +80,12 @@ def gen_point(rng, depth):
   ncand = rng.randint(2, 5)
 
   def cand():
-    if depth <= 0 or rng.chance(0.6):
+    if depth <= 0 or rng.chance(0.55):
       return ['space', []]
+    if rng.chance(0.3):
+      # a float decision that is only active under this candidate (cf. pg.oneof([pg.floatv(..), 'off']))
+      lo, hi = rng.choice([([1, 1], [1, 0]), ([0, 0], [1, 0]), ([-3, 1], [1, 1]), ([1, 0], [3, 0])])
+      return ['space', [['float', lo, hi]]]
     return gen_space(rng, depth - 1, rng.weighted([(5, 1), (3, 2)]), True)
   cands = [cand() for _ in range(ncand)]
   if kind == 'one':
@@ -103,8 +106,10 @@ def gen_dna(rng, spec):
       out += gen_dna(rng, e)
     return out
   if spec[0] == 'float':
-    lo, hi = spec[1][0], spec[2][0]
-    return [[lo * 8 + rng.randint(0, (hi - lo) * 8), 3]] if rng.chance(0.8) else [[rng.choice([lo, hi]), 0]]
+    from fractions import Fraction
+    lo, hi = Fraction(spec[1][0], 1 << spec[1][1]), Fraction(spec[2][0], 1 << spec[2][1])
+    v = lo + (hi - lo) * Fraction(rng.randint(0, 8), 8) if rng.chance(0.8) else rng.choice([lo, hi])
+    return [[v.numerator, v.denominator.bit_length() - 1]]
   _, k, cands, distinct, srt = spec
   n = len(cands)
   vals = rng.sample(list(range(n)), k) if distinct else [rng.below(n) for _ in range(k)]
@@ -195,13 +200,12 @@ class ExprGen:
     """An operation that creates new DNA."""
     r = self.rng
     k = r.weighted([(5, 'mutUniform'), (3, 'mutSwap'), (3, 'recUniform'), (2, 'recSample'),
-                    (3, 'recKPoint'), (2, 'recSegmented'), (3, 'recOrder')] +
+                    (3, 'recKPoint'), (2, 'recSegmented'), (3, 'recOrder'), (3, 'recAverage'),
+                    (2, 'recWeightedAverage')] +
                    ([(7, 'oo')] if self.oo else []))
     if k == 'oo':
-      k = r.choice(['recAverage', 'recWeightedAverage', 'recPartiallyMapped', 'recCycle'])
-      if k in ('recPartiallyMapped', 'recCycle'):
-        return ['seq', self.two_parents(fit), ['prim', k]]
-      return ['prim', k]
+      k = r.choice(['recPartiallyMapped', 'recCycle'])
+      return ['seq', self.two_parents(fit), ['prim', k]]
     if k == 'recOrder':
       e = ['prim', k]
       return e if self.sloppy and r.chance(0.3) else ['seq', self.two_parents(fit), e]
@@ -461,7 +465,6 @@ class C14(Prop):
   def __init__(self):
     self._memo = {}
     self._specs = {}
-    self._token = '%d' % os.getpid()      # inherited by forked workers: names the side channel
 
   # -- generation -----------------------------------------------------------------------
   def generate(self, rng, tier):
@@ -566,11 +569,11 @@ class C14(Prop):
       if name == 'recSegmented':
         cuts = list(e[2])
         return recombinators.Segmented(lambda dps: list(cuts))
-      # ---- oracle-only primitives ----
       if name == 'recAverage':
         return recombinators.Average()
       if name == 'recWeightedAverage':
         return recombinators.WeightedAverage(weights=weights)
+      # ---- oracle-only primitives (recOrder is modelled) ----
       if name in ('recPartiallyMapped', 'recOrder', 'recCycle'):
         cls = {'recPartiallyMapped': recombinators.PartiallyMapped, 'recOrder': recombinators.Order,
                'recCycle': recombinators.Cycle}[name]
@@ -728,7 +731,8 @@ class C14(Prop):
       # `list(set(outputs))` of the permutation recombinators: the iteration order of the set is
       # part of the oracle stream (the model checks that it is a rearrangement of its own children)
       from pyglove.ext.evolution import recombinators
-      if isinstance(self_op, recombinators.Permutation) and isinstance(res, list) and res is not inputs \
+      if isinstance(self_op, (recombinators.Permutation, recombinators.Numeric)) and isinstance(res, list) \
+          and res is not inputs \
           and len(res) > 1:
         items = []
         for d in res:
@@ -857,6 +861,18 @@ class C14(Prop):
         fail('input-adopted:' + c['cls'],
              '%s changed the sym_parent of a DNA passed in (the input object was moved into another '
              'symbolic tree; a later use of the same object behaves differently)' % c['cls'])
+      if 'err' in c and c['mod'] in ('mutators', 'recombinators') and all(isinstance(d, pg.DNA) for d in ins):
+        # closedness: a shipped operator maps valid parents to children, it does not raise on them
+        # (documented preconditions: the number of parents of 2-parent recombinators, user-supplied
+        # cutting points that leave a decision point unassigned, a DNA without decision points)
+        num_parents = getattr(type(c['op']), 'NUM_PARENTS', None)
+        excused = (num_parents is not None and len(ins) != num_parents) or (
+            c['cls'] == 'Segmented' and self.bad_cuts(c['op'], case['spec'])) or (
+                c['cls'] == 'Uniform' and c['mod'] == 'mutators' and c['err'] == 'RuntimeError'
+                and spec_stats(case['spec'])['points'] == 0)
+        if not excused and all(self.is_valid(spec, d) and self.is_aligned(spec, d) for d in ins):
+          fail('raises-on-valid-parents:%s:%s' % (c['cls'], c['err']),
+               '%s raised %s on valid parents %r' % (c['cls'], c['err'], ins))
       if 'out' not in c or not isinstance(c['out'], list):
         continue
       outs = c['out']
@@ -919,10 +935,16 @@ class C14(Prop):
       fail(sig, 'two runs with equal seeds and inputs (and different states of the global `random` module) '
                 'differ: %s vs %s' % (json.dumps(model)[:300], json.dumps(model2)[:300]))
     has_oo = any(p not in MODEL_PRIMS for p in prims)
-    if not has_oo and str(os.getpid()) != self._token:     # only pool workers use the side channel
-      self._side_put(case, run['log'])
     return {'model': None if has_oo else model, 'obs': model, 'oracle': run['log'], 'checks': checks,
             'tainted': tainted, 'n_calls': len(run['calls']), 'n_draws': len(run['log'])}
+
+  @staticmethod
+  def bad_cuts(op, spec_json):
+    try:
+      cuts = list(op.cutting_points([]))
+    except Exception:     # pylint: disable=broad-except
+      return True
+    return cuts != sorted(cuts)
 
   @staticmethod
   def documented_count(op, n_in):
@@ -957,44 +979,17 @@ class C14(Prop):
       self._memo[key] = self.impl(case)
     return self._memo[key]
 
-  # The framework builds the model request from the case alone, but the oracle stream is recorded by
-  # the implementation run (in a pool worker). The worker leaves the log in a scratch file named by
-  # (main pid, case hash); `model_request` consumes it, and re-runs the case in-process if absent.
-  def _side_path(self, case):
-    h = hashlib.sha1(json.dumps(case, sort_keys=True).encode()).hexdigest()
-    d = os.path.join(tempfile.gettempdir(), 'verif-c14-%s' % self._token)
-    return d, os.path.join(d, h + '.json')
-
-  def _side_put(self, case, log):
-    d, path = self._side_path(case)
-    try:
-      os.makedirs(d, exist_ok=True)
-      with open(path + '.tmp', 'w') as f:
-        json.dump(log, f)
-      os.replace(path + '.tmp', path)
-    except OSError:
-      pass
-
-  def _side_get(self, case):
-    d, path = self._side_path(case)
-    try:
-      with open(path) as f:
-        log = json.load(f)
-      os.unlink(path)
-      try:
-        os.rmdir(d)
-      except OSError:
-        pass
-      return log
-    except (OSError, ValueError):
-      return None
-
   def model_request(self, case):
     prims = expr_prims(case['expr'])
     if any(p not in MODEL_PRIMS for p in prims):
       return None
-    log = self._side_get(case)
-    out = {'oracle': log} if log is not None else self._impl_memo(case)
+    return self.model_request_with_impl(case, self._impl_memo(case))
+
+  def model_request_with_impl(self, case, out):
+    """The oracle stream fed to the model is the PRNG log recorded by the implementation run."""
+    prims = expr_prims(case['expr'])
+    if any(p not in MODEL_PRIMS for p in prims):
+      return None
     pop = []
     for ind in case['pop']:
       pop.append({'nums': ind['nums'], 'beliefs': self.positional_beliefs(case['spec'], ind['nums']),
@@ -1035,18 +1030,50 @@ class C14(Prop):
       if model_out.get('left'):
         return 'model left %d recorded draws unused; impl=%s model=%s' % (
             model_out['left'], json.dumps(a)[:300], json.dumps(b)[:300])
-    if a['outcome'] == 'ok':
-      a = {'outcome': 'ok', 'out': [dict(o, nums=[norm_q(x) if isinstance(x, list) else x for x in o['nums']])
-                                    if 'nums' in o else o for o in a['out']]}
-    if b['outcome'] == 'ok':
-      b = {'outcome': 'ok', 'out': [dict(o, nums=[norm_q(x) if isinstance(x, list) else x for x in o['nums']])
-                                    for o in b['out']]}
+    if a['outcome'] == 'ok' and b['outcome'] == 'ok':
+      a, b, near = self.numbers_agree(a, b)
+      if not near:
+        return 'float decisions differ: impl=%s model=%s' % (json.dumps(a)[:500], json.dumps(b)[:500])
     if a != b:
       return 'impl=%s model=%s' % (json.dumps(a, sort_keys=True)[:500], json.dumps(b, sort_keys=True)[:500])
     if 'ok' in model_out:
       # the model's own validity / alignment verdicts against the real ones are covered by the oracle
       pass
     return None
+
+  @staticmethod
+  def numbers_agree(a, b):
+    """Replaces every float decision by a token after checking that implementation (a dyadic
+    `[m, e]`) and model (an exact rational `['q', num, den]`) agree up to 2**-40 (the model computes
+    means exactly, the code rounds them)."""
+    def frac(x):
+      if x[0] == 'q':
+        return Fraction(x[1], x[2])
+      return Fraction(x[0], 1 << x[1])
+    near = True
+
+    def strip(side, other):
+      nonlocal near
+      out = []
+      for i, o in enumerate(side['out']):
+        if 'nums' not in o:
+          out.append(o)
+          continue
+        nums = []
+        for j, x in enumerate(o['nums']):
+          if isinstance(x, list):
+            try:
+              y = other['out'][i]['nums'][j]
+              if not isinstance(y, list) or abs(frac(x) - frac(y)) > Fraction(1, 1 << 40):
+                near = False
+            except (IndexError, KeyError):
+              near = False
+            nums.append('float')
+          else:
+            nums.append(x)
+        out.append(dict(o, nums=nums))
+      return {'outcome': 'ok', 'out': out}
+    return strip(a, b), strip(b, a), near
 
   def oracle(self, case, out):
     checks = out.get('checks') or []
@@ -1191,8 +1218,15 @@ FIXED_SPECS = [
                ['choices', 2, [_C0, ['space', [['choices', 1, [_C0, _C0], True, False]]], _C0], True, False],
                ['float', [0, 0], [1, 0]]]],
 ]
+FIXED_SPECS += [
+    # a float that is active under one candidate only: pg.oneof([pg.floatv(0.5, 1.0), 'off'])
+    ['space', [['choices', 1, [['space', [['float', [1, 1], [1, 0]]]], _C0], True, False]]],
+    ['space', [['choices', 2, [['space', [['float', [1, 1], [1, 0]]]], _C0, ['space', [['float', [0, 0], [4, 0]]]]],
+                False, False], ['float', [-1, 0], [1, 0]]]],
+]
 FIXED_PRIMS = [['prim', 'mutUniform'], ['prim', 'mutSwap'], ['prim', 'recUniform'], ['prim', 'recSample'],
                ['prim', 'recKPoint', 1], ['prim', 'recKPoint', 2], ['prim', 'recSegmented', [1]], ['prim', 'recOrder'],
+               ['prim', 'recAverage'], ['prim', 'recWeightedAverage'], ['power', ['prim', 'recAverage'], 2],
                ['prim', 'selRandom', 2, False], ['prim', 'selRandom', 3, True], ['prim', 'selSample', 2],
                ['prim', 'selTop', 1], ['prim', 'selBottom', ['frac', 1, 1]], ['prim', 'selFirst', 1],
                ['prim', 'selLast', 1], ['power', ['prim', 'mutUniform'], 3],
